@@ -24,7 +24,8 @@ type c08Cell struct {
 	Strategy int    `json:"strategy"`
 	A        []int  `json:"a"`           // thread A program (op indices)
 	NB       int    `json:"nb"`          // length of thread B programs enumerated inside the cell
-	C        bool   `json:"c,omitempty"` // thorough: a third single-op thread is enumerated too
+	C        bool   `json:"c,omitempty"` // a third single-op thread is enumerated too
+	Unb      bool   `json:"unb,omitempty"` // all interleavings (unbounded, HB cached) instead of preemption bound 2
 }
 
 func (c c08Cell) id() string { js, _ := json.Marshal(c); return string(js) }
@@ -66,6 +67,13 @@ func c08Cells(tier string) []Cell {
 			for _, a := range c08Progs(2) {
 				c := c08Cell{Backend: b, Batch: bt.batch, Strategy: bt.strat, A: a, NB: 1}
 				if tier == "thorough" {
+					// the quick programs with ALL interleavings ...
+					u := c
+					u.Unb = true
+					cells = append(cells, Cell{ID: u.id()})
+
+					// ... and longer second threads (1-2 operations), plus a third single-operation thread next to
+					// single-operation first threads, within preemption bound 2
 					c.NB = 2
 					c.C = len(a) == 1
 				}
@@ -477,8 +485,8 @@ func c08Run(c Cell, env *Env) CellResult {
 		}
 
 		opt := vsched.Options{PreemptionBound: 2, EnvBound: 0, HBCache: true, Deadline: env.Deadline}
-		if env.Thorough() {
-			opt = vsched.Options{PreemptionBound: -1, EnvBound: 0, HBCache: true, MaxExecs: 200000, Deadline: env.Deadline}
+		if cc.Unb {
+			opt = vsched.Options{PreemptionBound: -1, EnvBound: 0, HBCache: true, MaxExecs: 2000000, Deadline: env.Deadline}
 		}
 
 		st := vsched.Explore(opt, body, func(r *vsched.Result) bool {
@@ -581,6 +589,7 @@ func init() {
 		ID: "C08", Title: "Per-key linearizability of backends under concurrent use",
 		Cells: c08Cells, Run: c08Run,
 		Rule: "client programs: thread A = every sequence of 1-2 operations over {Write,Read,Delete} x {k0,k1}, thread B = every sequence of 1 (quick) / 1-2 (thorough) operations, optional third single-operation thread (thorough), " +
+			"preemption bound 2 with happens-before caching; thorough additionally runs the quick programs with ALL interleavings; " +
 			"plus one batch thread from {ExpireAll, DeleteAll, cleanup (delete-expired), eviction under MostExpired/LRU/LFU, Walk under MostExpired/LRU}; k0,k1 live in the same shard; 3 backends; " +
 			"all schedules within the bound; each per-key history (invocation/response stamped by a logical clock, batch calls as one pseudo-operation per key spanning the call, every Walk report as a read-like pseudo-operation) " +
 			"is checked with porcupine against a nondeterministic register-with-expiry model; an entry nobody touches must be visited exactly once by every Walk",
